@@ -162,14 +162,15 @@ def state_digest(a):
         for mat in ("coolant", "duct"):
             m = getattr(reg, mat, None)
             if m is not None:
-                out.append((mat, float(m.temperature), float(np.sum(m.thermal_conductivity)),
-                            float(getattr(m, "_heat_capacity", 0.0) or 0.0), float(getattr(m, "_density", 0.0) or 0.0)))
+                out.append((mat, repr(float(m.temperature)), repr(float(np.sum(m.thermal_conductivity))),
+                            repr(float(getattr(m, "_heat_capacity", 0.0) or 0.0)), repr(float(getattr(m, "_density", 0.0) or 0.0))))
         for pk in ("coolant_int_params", "coolant_byp_params", "coolant_params"):
             p = getattr(reg, pk, None)
             if p is not None:
                 out.append((pk, tuple((k, np.asarray(v, float).tobytes()) for k, v in sorted(p.items())
                                       if not isinstance(v, (str, type(None))))))
-        out.append(("dp", tuple(sorted((k, float(v)) for k, v in reg._pressure_drop.items()))))
+        # (repr: an undefined pressure drop, NaN, must compare equal to itself)
+        out.append(("dp", tuple(sorted((k, repr(float(v))) for k, v in reg._pressure_drop.items()))))
         out.append(("ebal", tuple((k, np.asarray(v, float).tobytes()) for k, v in sorted(reg.ebal.items()))))
         if hasattr(reg, "pin_temps"):
             out.append(("pins", reg.pin_temps.tobytes()))
